@@ -17,7 +17,7 @@ func init() { register("C10", c10) }
 // value down to where the walk stopped, and why it stopped.
 type ctxPath struct {
 	Layers []string
-	End    string // "wrap", "root:<name>", "cut"
+	End    string      // "wrap", "root:<name>", "cut"
 	Vals   []ssa.Value // value-carrying arguments of the layers (e.g. the MD given to NewIncomingContext), parallel to Layers (may be nil)
 }
 
@@ -212,13 +212,13 @@ func layersDownToWrap(p *core.Prog, v ssa.Value) []ctxPath {
 
 // sanctioned layers above the value-blocking wrapper.
 var c10Sanctioned = map[string]bool{
-	metadataPkg + ".NewIncomingContext":          true,
-	peerPkg + ".NewContext":                      true,
-	"context.WithValue":                          true, // only with the package's private key (checked)
+	metadataPkg + ".NewIncomingContext":              true,
+	peerPkg + ".NewContext":                          true,
+	"context.WithValue":                              true, // only with the package's private key (checked)
 	grpcPkg + ".NewContextWithServerTransportStream": true,
-	"context.WithCancel":                         true,
-	"context.WithTimeout":                        true,
-	"context.WithDeadline":                       true,
+	"context.WithCancel":                             true,
+	"context.WithTimeout":                            true,
+	"context.WithDeadline":                           true,
 }
 
 func c10(c *core.Ctx) {
